@@ -565,4 +565,14 @@ def validate (sim : Sim) (s : State) : State :=
   | .hamiltonian => { s with ctx := { s.ctx with lastPos := positions s.atoms.rows, lastMom := momenta s.atoms.rows } }
   | _ => { s with ctx := { s.ctx with lastPos := positions s.atoms.rows } }
 
+/-- between two `run()` calls the user may move the atoms or change the cell (`atoms.wrap()`, `atoms.positions = …`,
+    `atoms.set_cell(…)`): positions are replaced when the list has the right length, the cell when one is given -/
+def userEdit (s : State) (newPos : List V3) (newCell : Option V3) : State :=
+  let rows := if newPos.length = s.atoms.rows.length then setPositions s.atoms.rows newPos else s.atoms.rows
+  { s with atoms := { s.atoms with rows := rows, cell := newCell.getD s.atoms.cell } }
+
+/-- the next `run()`: `validate_simulation()` on the atoms as the user left them -/
+def newRun (sim : Sim) (s : State) (newPos : List V3) (newCell : Option V3) : State :=
+  validate sim (userEdit s newPos newCell)
+
 end MM
